@@ -267,6 +267,7 @@ pub fn run(run: &mut Run) {
         plan.r960 = Some(bd(0, 0));
         plan.clock = Some(bd(1, 0));
         plan.lines = Some(bd(1, 0));
+        plan.walk = Some((120, 40, 2, 7, bd(0, 0)));
         plan.raws.push((Box::new(Castle { extra: 1, ek_rank2: false }), bd(0, 0)));
         plan.raws.push((Box::new(Disambiguation), bd(0, 0)));
     } else {
@@ -275,6 +276,7 @@ pub fn run(run: &mut Run) {
         plan.r960 = Some(bd(1, 0));
         plan.clock = Some(bd(2, 1));
         plan.lines = Some(bd(2, 1));
+        plan.walk = Some((960, 60, 1, 7, bd(0, 0)));
         plan.raws.push((Box::new(Castle { extra: 2, ek_rank2: false }), bd(0, 0)));
         plan.raws.push((Box::new(Disambiguation), bd(1, 0)));
         plan.raws.push((Box::new(ThreeMen { bk: None }), bd(0, 0)));
